@@ -59,6 +59,10 @@ class CallableObject:
             self.ran("noarg")
 
 
+class TdErr(Exception):
+    """raised by a teardown callback"""
+
+
 class Awaitable:
     """awaitable, but neither a coroutine nor a future"""
 
@@ -76,6 +80,8 @@ def describe(e):
         return {"crash": e.args[0]}
     if isinstance(e, RunError):
         return {"runerror": e.args[0]}
+    if isinstance(e, TdErr):
+        return {"td": e.args[0]}
     if isinstance(e, (Boom, Doom)):
         return {"boom": e.args[0]}
     if isinstance(e, SystemExit):
@@ -121,6 +127,8 @@ async def do_action(a, who):
                 w.obs("Td", cid, arg)
                 for kid, kpass in kids:          # registered while the teardown is running
                     register(ctx, kid, kpass, [])
+                if cid in (w.case.get("raisers") or []):
+                    raise TdErr(cid)             # the callback fails: the others still run, and this comes out
             if cid % 3 == 2:
                 # the callback hands back an awaitable that is not a coroutine: its work is done when that has
                 # been awaited
@@ -285,7 +293,7 @@ def run_case(case):
     old_level = lg.level
     lg.setLevel(logging.INFO)
     lg.propagate = False
-    result = {k: case[k] for k in ("backend", "cli", "tree", "after", "ending")}
+    result = {k: case.get(k) for k in ("backend", "cli", "tree", "after", "ending", "raisers")}
     old_int, old_term = signal.getsignal(signal.SIGINT), signal.getsignal(signal.SIGTERM)
     try:
         with warnings.catch_warnings(record=True) as caught:
@@ -331,14 +339,14 @@ def main():
     for case in payload["cases"]:
         if never >= 2:
             # enough: applications do not end any more; do not spend the whole budget waiting for the watchdog
-            out.append({**{k: case.get(k) for k in ("backend", "cli", "tree", "after", "ending")}, "skipped": True})
+            out.append({**{k: case.get(k) for k in ("backend", "cli", "tree", "after", "ending", "raisers")}, "skipped": True})
             continue
         try:
             out.append(run_case(case))
             never += bool(out[-1].get("outcome", {}).get("never_ended"))
         except BaseException as e:  # noqa
             import traceback
-            out.append({**{k: case.get(k) for k in ("backend", "cli", "tree", "after", "ending")},
+            out.append({**{k: case.get(k) for k in ("backend", "cli", "tree", "after", "ending", "raisers")},
                         "crash": traceback.format_exc()[-1500:]})
     print("@@" + json.dumps({"results": out}))
 
